@@ -27,7 +27,8 @@ ASSUMES = [
     "event loop = vlib.h_async.SymLoop: FIFO ready queue, virtual integer clock, timers due at the same instant fire "
     "in the same iteration in scheduling order (asyncio's _run_once discipline); real asyncio.Task / Lock / sleep / gather",
     "nondeterminism = symbolic instants (start, hold, cancellation) - every ordering incl. ties is decided by z3",
-    "cancellation = Task.cancel() delivered by an environment task at a symbolic instant (at most one per user)",
+    "cancellation = Task.cancel() delivered by an environment task at a symbolic instant (at most one per user); in ob_cancel_at_handover "
+    "also a symbolic number of loop iterations into that instant",
     "'free key' = no user is between requesting the key and having left it (harness-side bookkeeping)",
 ]
 OUTSIDE = [
@@ -39,7 +40,7 @@ TMAX = B(2, 3)  # start / hold bounds
 XMAX = B(4, 6)  # cancellation instant bound
 
 
-def _scenario(keys, starts, holds, cancels, xs, yields=None) -> bool:
+def _scenario(keys, starts, holds, cancels, xs, yields=None, cyields=None) -> bool:
     n = len(keys)
     loop = SymLoop()
     ok = [True]
@@ -73,7 +74,14 @@ def _scenario(keys, starts, holds, cancels, xs, yields=None) -> bool:
                 want[key] -= 1
 
         ts = [asyncio.ensure_future(user(i, "b" if keys[i] else "a", starts[i], holds[i])) for i in range(n)]
-        cs = [asyncio.ensure_future(cancel_at(ts[i], xs[i])) for i in range(n) if cancels[i]]
+        async def cancel_late(task, when, extra):
+            await asyncio.sleep(when)
+            for _ in range(extra):
+                await asyncio.sleep(0)    # deliver the cancellation a few loop iterations INTO the instant (after a release made there)
+            if not task.done():
+                task.cancel()
+
+        cs = [asyncio.ensure_future(cancel_late(ts[i], xs[i], cyields[i]) if cyields else cancel_at(ts[i], xs[i])) for i in range(n) if cancels[i]]
         res = await asyncio.gather(*ts, return_exceptions=True)
         reraise_foreign(res)
         for r in res:
@@ -150,6 +158,20 @@ def ob_four_users_handover(h0: int, s1: int, s2: int, s3: int, h1: int, h2: int,
     y2 = 0 if y2 == 0 else (1 if y2 == 1 else 2)
     y3 = 0 if y3 == 0 else (1 if y3 == 1 else (2 if y3 == 2 else 3))
     return _scenario([False, False, False, True], [0, s1, s2, s3], [h0, h1, h2, h3], [False] * 4, [0] * 4, yields=[0, 0, y2, y3])
+
+
+@obligation(quick=120, thorough=400, partitions_quick=[f"cy == {c}" for c in range(4)], partitions_thorough=[f"cy == {c} and s2 == {a}" for c in range(4) for a in range(3)],
+            what="3 users of ONE key: a holder, a queued waiter that is cancelled at a symbolic instant and cy loop iterations INTO that instant "
+                 "(so the cancellation can land after the holder's release of the same instant handed the lock over, before the waiter resumed), "
+                 "and a second waiter behind it: exclusion, the second waiter and every non-cancelled user enter, no residue",
+            bounds={"users": "3 on one key", "start": "0 / 0..1 / 0..2", "hold": "1..2, 0..1, 0..1", "cancel instant": "0..3", "extra loop iterations before the cancel": "0..3"})
+def ob_cancel_at_handover(h0: int, s1: int, s2: int, h1: int, h2: int, x1: int, cy: int) -> bool:
+    """
+    pre: 1 <= h0 <= 2 and 0 <= s1 <= 1 and 0 <= s2 <= 2 and 0 <= h1 <= 1 and 0 <= h2 <= 1 and 0 <= x1 <= 3 and 0 <= cy <= 3
+    post: _
+    """
+    cy = 0 if cy == 0 else (1 if cy == 1 else (2 if cy == 2 else 3))
+    return _scenario([False, False, False], [0, s1, s2], [h0, h1, h2], [False, True, False], [0, x1, 0], cyields=[0, cy, 0])
 
 
 @obligation(quick=None, thorough=500, partitions_thorough=_P3T,
